@@ -15,7 +15,11 @@ META = {
     "technique": "TLC exhaustive + simulation (Pattern B: exact rationals replayed into the implementation)",
 }
 ASSUMPTIONS = [
-    "curve values are positive (positive peaks) and times strictly increasing",
+    "curve values are positive (positive peaks); times are non-decreasing (equal consecutive timestamps are legitimate "
+    "input, a drawdown may have zero duration)",
+    "reading the current drawdown (DrawdownGenerator::generate on the live object, any time, any number of times) must not "
+    "change any later figure (ReadingIsPure); the tear sheets' own generate() folds into Max/Mean by design, so after a live "
+    "tear-sheet read only the current drawdown / peak are still judged on that object",
     "generate() of a tear sheet is called once per behaviour (it folds the current drawdown into mean/max at every call): "
     "each prefix is judged on a clone of the generator",
     "several reported drawdowns of equal largest depth: any of them may be reported as the maximum",
@@ -72,7 +76,14 @@ def validate(ctx, trace_path, label):
 
 
 def points_of(seg):
-    return [[l["t"], l["v"]] for l in seg if l.get("a") == "AddPoint"]
+    """[t, v] per point, [t, v, 1] when the current drawdown was read on the live generator after it"""
+    pts = []
+    for l in seg:
+        if l.get("a") == "AddPoint":
+            pts.append([l["t"], l["v"]])
+        elif l.get("a") == "Read" and pts:
+            pts[-1] = pts[-1][:2] + [1]
+    return pts
 
 
 def trace_replay(seg):
@@ -101,7 +112,7 @@ def selftest_trace(ctx, keep):
 def check(ctx):
     ctx.assumptions += ASSUMPTIONS
     ctx.build("c18")
-    ctx.tlc_actions(MODULE, "MC_Drawdown_small.cfg", ["AddPointAny"])
+    ctx.tlc_actions(MODULE, "MC_Drawdown_small.cfg", ["AddPointAny", "ReadCurrentAny"])
     if ctx.quick:
         ctx.tlc_mc(MODULE, "MC_Drawdown.cfg", timeout=900, coverage=False)        # <= 4 points, irregular time steps
         ctx.tlc_mc(MODULE, "MC_Drawdown_long.cfg", timeout=900, coverage=False)   # all curves of <= 6 points over 1..4
@@ -110,6 +121,8 @@ def check(ctx):
         ctx.tlc_mc(MODULE, "MC_Drawdown_long_thorough.cfg", timeout=2400, coverage=False)  # all curves of <= 7 points over 1..4
     # every curve of the bounded model (equal neighbours, recovery exactly to the peak, ...)
     p_t, scn_t = ctx.tlc_gen("Gen_" + MODULE, "GenT_Drawdown.cfg" if ctx.quick else "GenT_Drawdown_thorough.cfg", "all.ndjson", timeout=900)
+    # every short curve with equal consecutive timestamps allowed
+    p_0, scn_0 = ctx.tlc_gen("Gen_" + MODULE, "GenT0_Drawdown.cfg" if ctx.quick else "GenT0_Drawdown_thorough.cfg", "all_eqt.ndjson", timeout=900)
     # longer random curves, wider values, irregular time steps
     p_r, scn_r = ctx.tlc_gen("Gen_" + MODULE, "GenR_Drawdown.cfg", "sim.ndjson", simulate=(500 if ctx.quick else 8000, 40), timeout=900)
     ctx.sample({"kind": "TLC enumerated curve with reference drawdowns per point", "scenario": scn_t[len(scn_t) // 3]})
@@ -117,14 +130,14 @@ def check(ctx):
     with_dd = next(s for s in scn_r if any(isinstance(p["exp"]["cur"], dict) for p in s["pts"]))
     sc.selftest_binding(ctx, "c18", with_dd, corrupt, "current")
     arms = {}
-    for label, p, scns in (("enumerated", p_t, scn_t), ("simulated", p_r, scn_r)):
+    for label, p, scns in (("enumerated", p_t, scn_t), ("enumerated-equal-times", p_0, scn_0), ("simulated", p_r, scn_r)):
         info, results = sc.run_replay(ctx, "c18", p, label)
         judge(ctx, results, scns, label)
         ctx.cov["scenarios_replayed"] += len(scns)
         for k, v in info.get("arm_hits", {}).items():
             arms[k] = arms.get(k, 0) + v
     # (runs cut short by a violation exercise fewer arms: vacuity is only judged on a clean run)
-    if not ctx.violations and not all(arms.get(k) for k in ("point_completes_a_drawdown", "drawdown_in_progress", "max_tie")):
+    if not ctx.violations and not all(arms.get(k) for k in ("point_completes_a_drawdown", "drawdown_in_progress", "max_tie", "live_read", "equal_consecutive_times")):
         raise vlib.ToolError("vacuous run: an arm of the drawdown decomposition was never exercised: %s" % arms)
     # impl -> spec: seeded random curves recorded from the implementation, validated by TLC
     out = ctx.path("trace_random.ndjson")
